@@ -432,6 +432,96 @@ def padding(run, m, F, E):
     return n
 
 
+TAIL_PATTERNS = [
+    # (first group or None, last group, expected: None = rejected, else bytes decoded from the last group)
+    (None, 'dddd', 3), (None, 'ddd=', 2), (None, 'dd==', 1),
+    (None, 'dd=d', None), (None, 'd=dd', None), (None, '=ddd', None), (None, 'd===', None), (None, '====', None), (None, 'd=d=', None),
+    ('dddd', 'dddd', 3), ('dddd', 'ddd=', 2), ('dddd', 'dd==', 1),
+    ('dddd', 'dd=d', None), ('dddd', 'd=dd', None), ('dddd', '=ddd', None), ('dddd', 'd===', None), ('dddd', 'd=d=', None),
+    ('ddd=', 'dddd', None), ('dd==', 'dddd', None), ('dd=d', 'dddd', None),
+]
+
+
+def tail_placement(run, m, F, E):
+    """R15.5: where '=' may stand.  b64_decode is interpreted *exactly* (no loop abstraction) on inputs of one and of two groups
+    whose units are symbols constrained to 'a digit' (A..Z, a sub-range of the alphabet) or to '=' according to a pattern: the three
+    well-formed endings must return the decoded length, every other placement of '=' - inside the final group or in an earlier one -
+    must return -1, on every path.  A two-group input is what shows state carried from one group to the next."""
+    L = own.buffer_layout(m, 'char')
+    f = [m.func(x) for x in F.lib if m.func(x).dem == CORES[1][1]]
+    if not f or L is None:
+        run.ob('R15.5', 'b64_decode', None, 'core not found', loc='')
+        return 0
+    f = f[0]
+    n = 0
+    for (g1, g2, expect) in TAIL_PATTERNS:
+        n += 1
+        pat = (g1 or '') + g2
+        label = (g1 + ' ' if g1 else '') + g2
+
+        class XH(DecHooks):
+            unroll = 4
+            widen_on_entry = False
+        I = Interp(m, F, E, XH(m))
+        st = State()
+        this, ret, entry = string_scene(I, st, L, 'small', with_ret=False)
+        ok = st.assume_eq0(entry['size'] - len(pat))
+        sto = entry['storage']
+        units = []
+        for k, c in enumerate(pat):
+            v = I.load(st, None, PtrV(sto.obj, sto.off + k), 'i8', 1)
+            if not isinstance(v, IntV):
+                ok = False
+                break
+            u = I.as_u(st, v)
+            units.append(u)
+            if c == '=':
+                ok = ok and st.assume_eq0(u - 0x3D)
+            else:
+                ok = ok and st.assume_ge0(u - 0x41) and st.assume_ge0(Lin.const(0x5A) - u)
+        st.objs['OUT'] = Obj('ext', Lin.const(16))
+        st.objs['OUT'].lazy = True
+        if not ok:
+            run.ob('R15.5', short(f.dem, 60), None, 'scene for pattern %r not built' % label, disc=label, loc=fn_loc(f))
+            continue
+        try:
+            outs = I.run(I.start(f, [PtrV(this), PtrV('OUT'), IntV(64, Lin.const(16), 'u')], st))
+        except Exception as e:
+            run.ob('R15.5', short(f.dem, 60), None, 'not interpreted exactly: %s' % (str(e)[:70],), disc=label, loc=fn_loc(f))
+            continue
+        probs, und, nret = [], [], 0
+        want = None if expect is None else (3 * (1 if g1 else 0) + expect)
+        for o in outs:
+            s2 = o.st
+            if o.kind == 'abort':
+                probs.append('aborts (%s)' % (o.info[1] if o.info and len(o.info) > 1 else o.info,))
+                continue
+            if o.kind != 'ret' or not isinstance(o.val, IntV):
+                continue
+            if any(e[0] == 'widen' for e in s2.events):
+                und.append('a loop was abstracted')
+                continue
+            nret += 1
+            v = I.as_s(s2, o.val)
+            lo, hi = s2.range(v)
+            if want is None:
+                if not (lo == hi == -1):
+                    env = s2.find_model(units, lambda vals: True)
+                    probs.append('an input of the form %r (d: a digit) is accepted (returns %r) although \'=\' may only end the text%s' %
+                                 (label, v, '; witness ' + ' '.join('%02X' % (env.get(a, 0) if not isinstance(a, int) else a) for a in
+                                                                    [u.single_atom()[0] if u.single_atom() else 0 for u in units]) if env else ''))
+            else:
+                if lo == hi == -1:
+                    probs.append('the well-formed ending %r is rejected' % label)
+                elif not (lo == hi == want):
+                    und.append('returns %r for %r, expected %d' % (v, label, want))
+        if nret == 0 and not probs:
+            und.append('no returning path explored')
+        run.ob('R15.5', short(f.dem, 60), False if probs else (None if und else True), probs[0] if probs else (und[0] if und else
+               ('rejected on every path' if want is None else 'returns %d on every path' % want)), disc=label, loc=fn_loc(f))
+    return n
+
+
 def check(run):
     m = run.module()
     F = run.facts()
@@ -442,5 +532,6 @@ def check(run):
     run.floor('decoder cores', cores(run, m, F, E), 2)
     run.floor('unit classes x positions', acceptance(run, m, F, E), 40)
     run.floor('padding / wrapper facts', padding(run, m, F, E), 3)
+    run.floor('base64 \'=\' placement patterns', tail_placement(run, m, F, E), 20)
     for o in run.obs[:6]:
         run.sample(dict(rule=o['rule'], subject=o['subject'], case=o['disc'], verdict=o['verdict'], detail=o['detail'][:160]))
